@@ -4,12 +4,14 @@ independent sub-agent that knows only the property's text (nothing from /verif).
 import json, os, subprocess, sys
 props = {json.loads(l)["id"]: json.loads(l) for l in open(os.path.join(os.path.dirname(__file__), "..", "properties.jsonl"))}
 TEMPLATE = open(os.path.join(os.path.dirname(__file__), "seed_prompt.tmpl")).read()
+SEED_ROOT = os.environ.get("SEED_ROOT", "/work/seed")
 for pid in sys.argv[1:]:
-    wt = f"/work/seed/{pid}"
+    wt = f"{SEED_ROOT}/{pid}"
     if not os.path.isdir(wt):
         subprocess.run(["git", "-C", "/repo", "worktree", "add", "-q", "--detach", wt, "HEAD"], check=True)
     p = props[pid]
     text = (TEMPLATE.replace("@PID@", pid).replace("@TITLE@", p["title"]).replace("@STATEMENT@", p["statement"])
             .replace("@QUANT@", p["quantifier"]["text"]).replace("@FILES@", ", ".join(p["anchors"]["files"])))
-    open(f"/work/seed/{pid}.prompt.md", "w").write(text)
+    text = text.replace("/work/seed/", SEED_ROOT + "/")
+    open(f"{SEED_ROOT}/{pid}.prompt.md", "w").write(text)
     print(pid, "ready")
